@@ -394,6 +394,13 @@ def make_variants(rng: numpy.random.Generator, st: dict, p_last_gpa: float, p_la
         # "reachable at every temperature" is violated -> must be rejected
         mid = p_last_gpa + float(rng.uniform(0.3, 0.7)) * (p_last_max_gpa - p_last_gpa)
         out.append({"expect": "reject", "kind": "between_T", "settings": {"DELTA_P": (mid - st["P_MIN"]) / (ntv - 1)}})
+    # only the LAST requested pressure overshoots (by half a step), and the output sampling stride DELTA_P_SAMPLE / DELTA_P does not
+    # land on it: the requested grid — all NTV pressures, which is what cij converts — still overshoots and must be rejected
+    ks = [k for k in (2, 3, 7, 5) if (ntv - 1) % k != 0]
+    if ks and ntv >= 4:
+        dp = (p_last_gpa - st["P_MIN"]) / (ntv - 1.5)
+        if dp > 0:
+            out.append({"expect": "reject", "kind": "sample_stride", "settings": {"DELTA_P": dp, "DELTA_P_SAMPLE": ks[0] * dp}})
     inside = float(rng.uniform(0.85, 0.995))
     out.append({"expect": "accept", "kind": "DELTA_P", "settings": {"DELTA_P": (inside * p_last_gpa - st["P_MIN"]) / (ntv - 1)}})
     return out
